@@ -171,11 +171,14 @@ pub fn run_case_with(gd: &GenDict, mk: &dyn Fn() -> Outcome<vibrato::Dictionary>
             },
         };
     }
-    let tokenizer = tokenizer.max_grouping_len(mgl);
+    // the two setters in either order (each must leave the other option alone)
+    let mgl_last = rng.chance(1, 2);
+    let tokenizer = if mgl_last { tokenizer } else { tokenizer.max_grouping_len(mgl) };
     let tokenizer = match tokenizer.ignore_space(ignore_space) {
         Ok(t) => t,
         Err(_) => return CaseOut { term: fin(head(0, &conn, 1, "[]"), &extra), human, built: 0, sents: vec![] },
     };
+    let tokenizer = if mgl_last { tokenizer.max_grouping_len(mgl) } else { tokenizer };
     let mut worker = tokenizer.new_worker();
     if counting {
         worker.init_connid_counter();
